@@ -262,3 +262,12 @@ ob(name='world_mv.mockdtor.movable_mock_dies_first', kind='BL', props=['C04', 'C
    variants=world_variants(2, 1), unwind=10, timeout=900, bound=_BOUND % 'movable mock, N=2 expectations', min_reach=0)
 ob(name='world_mv.call.mock_func', kind='BL', props=['C01', 'C02', 'C03', 'C05', 'C07', 'C08', 'C14', 'C16'], unit='world_mv', harness='h_world.c', entry='w_call',
    variants=world_variants(2, 1), unwind=10, timeout=1800, bound=_BOUND % 'movable mock, N=2 expectations', min_reach=0)
+
+# ----------------------------------------------------------------------------------------------
+# C19 (partial): compile-time guards of the expectation clauses, and the macro-prefix sentence
+import sf
+ob(name='guards.clause_type_state', kind='FC', props=['C19'], unit=None, run=sf.run_guards,
+   bound='none: every valuation of the abstract clause type-state (25 flags/bounds); 28 static_assert conditions of times/runtime_times/in_sequence/sideeffect/handle_return/handle_throw/operator+/lifetime in_sequence')
+ob(name='macros.long_macros_prefix', kind='SF', props=['C19'], unit=None, run=sf.run_macros,
+   bound='exact for the configuration compiled: trompeloeil.hpp, -std=c++14 (thorough: +17, +20); framework adapter headers not included (their frameworks are not installed)')
+LEVELS['C19'] = 'proof'
